@@ -140,7 +140,7 @@ def case(draw):
                 ops.append({"op": "manifest", "edit": {"k": "rewire", "edge": e["name"], "ins": list(e["ins"])}})
         elif k == "fault" and cur["edges"]:
             e = draw(st.sampled_from(cur["edges"]))
-            ops.append({"op": "fault", "cmd": e["name"], "fault": draw(st.sampled_from(["exit 1", "signal 11", "exit 3"]))})
+            ops.append({"op": "fault", "cmd": e["name"], "fault": draw(st.sampled_from(["exit 1", "signal 11", "exit 3", "signal 9", "signal 2"]))})
             ops.append({"op": "build", "jobs": draw(st.sampled_from([1, 4])), "expect_fail": True})
             ops.append({"op": "fault", "cmd": e["name"], "fault": None})
         ops.append({"op": "build", "jobs": draw(st.sampled_from([1, 4]))})
